@@ -27,6 +27,7 @@ ASSUMPTIONS = ["node names of distinct advertised servers are distinct", "client
 NOT_COVERED = ["text parsing of the cluster configuration line is checked by bounded enumeration only (1..6 nodes, both use_vpc values)",
                "the constructor's duplicated field initialisation (it ends by calling reconfigure_nodes, which is verified)"]
 BUDGET = {"quick": 30, "thorough": 120}
+DEPENDS = ["C03"]      # _readsegment (the configuration reply is read through it)
 REPLAY_UNDECIDED = True
 
 
@@ -312,6 +313,7 @@ for use_vpc in (True, False):
             def connect(addr, s=s):
                 s.events.append(("connect", addr)); s.addr = addr
                 if addr[0] == "cfg.example.com": s.chunks = cuts(reply(gens[cur["g"]]), mode)
+                else: s.chunks = [b"END\r\n"] * 400          # a healthy node: every get is a miss, the connection stays open
             return connect
         def socket2(*a):
             s = FakeModule.socket(m, *a); s.connect = make_connect(s); s.addr = None; return s
@@ -335,6 +337,15 @@ for use_vpc in (True, False):
                 for s in m.sockets:
                     if s.addr and s.addr[0] != "cfg.example.com" and ("%s:%s" % s.addr) not in want and s.closed == 0:
                         why = "connection to replaced node %r left open" % (s.addr,)
+                # every client object of the previous generation was replaced: its connection must be closed, also when the
+                # node is still advertised (at most one open connection per node at any time)
+                open_per = {}
+                for s in m.sockets:
+                    if s.addr and s.addr[0] != "cfg.example.com" and s.closed == 0 and s.sent:
+                        open_per[s.addr] = open_per.get(s.addr, 0) + 1
+                leak = {a: k for a, k in open_per.items() if k > 1}
+                if leak:
+                    why = "generation %d: %r open connections to still-advertised node(s) (the replaced client's socket was not closed)" % (g, leak)
                 if why: break
         except Exception as e:
             why = "raised %r" % (e,)
